@@ -47,7 +47,7 @@ CLAIMED={
         "every single fault at every offset of every corpus document, every ordered fault pair on short documents, every byte string of length<=3 (thorough: all 2^32 4-byte strings), text fallback corpus; giant counts in crash-isolated workers",
         "three or more simultaneous faults and documents longer than the corpus are not covered"),
  'C17':("exhaustive enumeration of function x input x prior-buffer combinations plus explicit-state BFS over call batches into one buffer",
-        "every buffer-writing function on every document with 6 prior buffer contents; BFS over batches (state = whole buffer + offsets) to depth 3/4",
+        "every buffer-writing function on every document with 8 prior buffer contents; BFS over batches (state = whole buffer + offsets) to depth 3/4",
         "bounded universe and batch depth"),
 
  'C01':("bounded-exhaustive enumeration of values (SWEEP) against an independent layout encoder/strict validator",
